@@ -100,7 +100,8 @@ macro_rules! parse_sync {
         fn $name() {
             let arr: [u8; $len] = kani::any();
             let data: &[u8] = &arr;
-            let mut buf = BytesMut::with_capacity(32);
+            // capacity == length: the tightest buffer a transport can hand over (an out-of-range split must panic here)
+            let mut buf = BytesMut::with_capacity($len);
             buf.extend_from_slice(data);
             let r = Sync::deserialize_message(buf);
             let header_ok = $len >= 5 && data[0] as usize == $len && data[1] == 0 && data[2] == 0 && data[3] == 0
@@ -164,7 +165,7 @@ parse_sync!(c08_parse_sync_len11, 11);
 #[kani::unwind(12)]
 fn c08_parse_close_channel_end_reply_len7() {
     let data: [u8; 7] = kani::any();
-    let mut buf = BytesMut::with_capacity(32);
+    let mut buf = BytesMut::with_capacity(7);
     buf.extend_from_slice(&data);
     let r = CloseChannelEndReply::deserialize_message(buf);
     let ok = data[0] == 7 && data[1] == 0 && data[2] == 0 && data[3] == 0
@@ -194,7 +195,8 @@ macro_rules! parse_connect {
         fn $name() {
             let arr: [u8; $len] = kani::any();
             let data: &[u8] = &arr;
-            let mut buf = BytesMut::with_capacity(32);
+            // capacity == length: the tightest buffer a transport can hand over (an out-of-range split must panic here)
+            let mut buf = BytesMut::with_capacity($len);
             buf.extend_from_slice(data);
             let r = super::Connect::deserialize_message(buf);
             let header_ok = data[0] as usize == $len && data[1] == 0 && data[2] == 0 && data[3] == 0
